@@ -259,60 +259,71 @@ point) and passes on the rows of the popped chunk that do not come after the bre
 section merge
 variable {ρ : Type}
 
-/-- drop used-up chunks and inputs. -/
+/-- drop used-up chunks of an input. -/
 def normInput : List (List ρ) → List (List ρ)
   | [] => []
   | [] :: cs => normInput cs
-  | c :: cs => c :: cs
+  | (r :: c) :: cs => (r :: c) :: cs
 
+/-- drop used-up chunks and inputs: every input left starts with a chunk that has a row
+(`AppendToHeap` pushes only chunks with rows; a finished input leaves the heap). -/
 def normInputs (ins : List (List (List ρ))) : List (List (List ρ)) :=
   (ins.map normInput).filter (fun i => !i.isEmpty)
 
-def headRow : List (List ρ) → Option ρ
+/-- the current row of an input (`Item.ChunkBuf` at `Item.Index`). -/
+def headOf : List (List ρ) → Option ρ
   | (r :: _) :: _ => some r
   | _ => none
 
-/-- index and head row of the input with the least current row (the leftmost among equals). -/
-def minIdx (le : ρ → ρ → Bool) : List (List (List ρ)) → Nat → Option (Nat × ρ) → Option (Nat × ρ)
-  | [], _, best => best
-  | i :: is, k, best =>
-    match headRow i, best with
-    | some r, none => minIdx le is (k + 1) (some (k, r))
-    | some r, some (bk, br) => if le br r then minIdx le is (k + 1) (some (bk, br)) else minIdx le is (k + 1) (some (k, r))
-    | none, b => minIdx le is (k + 1) b
+/-- heap order on inputs by their current rows. -/
+def leHead (le : ρ → ρ → Bool) (i j : List (List ρ)) : Bool :=
+  match headOf i, headOf j with
+  | some a, some b => le a b
+  | some _, none => true
+  | none, _ => false
 
-/-- split the current chunk of an input at the break point. -/
+/-- `heap.Pop`: the input with the least current row and the others. -/
+def extractMin (le : ρ → ρ → Bool) :
+    List (List (List ρ)) → Option (List (List ρ) × List (List (List ρ)))
+  | [] => none
+  | i :: is =>
+    match extractMin le is with
+    | none => some (i, [])
+    | some (j, rest) => if leHead le i j then some (i, j :: rest) else some (j, i :: rest)
+
+/-- the rows of the current chunk that do not come after the break point
+(`updateWithBreakPoint`; all of them when no other input is left: `UpdateWithSingleChunk`). -/
 def takeRun (le : ρ → ρ → Bool) (bp : Option ρ) : List ρ → List ρ × List ρ
   | [] => ([], [])
   | r :: rs =>
     match bp with
     | none => (r :: rs, [])
     | some b =>
-      if le r b then
-        let (t, d) := takeRun le bp rs
-        (r :: t, d)
+      if le r b then ((takeRun le bp rs).1.cons r, (takeRun le bp rs).2)
       else ([], r :: rs)
 
 def mergeGo (le : ρ → ρ → Bool) : Nat → List (List (List ρ)) → List ρ
   | 0, _ => []
   | fuel + 1, ins =>
-    let ins := normInputs ins
-    match minIdx le ins 0 none with
+    match extractMin le (normInputs ins) with
     | none => []
-    | some (k, _) =>
-      let others := ins.eraseIdx k
-      let bp := (minIdx le others 0 none).map (·.2)
-      match ins[k]? with
-      | some (c :: cs) =>
-        let (run, rest) := takeRun le bp c
-        run ++ mergeGo le fuel (ins.set k (rest :: cs))
-      | _ => []
+    | some (cur, others) =>
+      match cur with
+      | c :: cs =>
+        let bp := (extractMin le others).bind (fun p => headOf p.1)
+        (takeRun le bp c).1 ++ mergeGo le fuel (((takeRun le bp c).2 :: cs) :: others)
+      | [] => []
 
-def totalSize (ins : List (List (List ρ))) : Nat :=
-  (ins.map (fun i => i.length + (i.map List.length).sum)).sum
+/-- rows plus chunks: what every step of the merge makes smaller. -/
+def inputSize (i : List (List ρ)) : Nat := i.length + i.flatten.length
+
+def totalSize (ins : List (List (List ρ))) : Nat := (ins.map inputSize).sum
 
 def mergeStream (le : ρ → ρ → Bool) (ins : List (List (List ρ))) : List ρ :=
   mergeGo le (totalSize ins + 1) ins
+
+/-- all rows of all inputs. -/
+def allRows (ins : List (List (List ρ))) : List ρ := (ins.map List.flatten).flatten
 
 end merge
 
